@@ -427,6 +427,132 @@ Proof.
   reflexivity.
 Qed.
 
+(* ------------------------------------------------------------ F9 as an exact characterisation *)
+Lemma char_of_byte_le s : forall b k, char_of_byte s b = Ret k -> k <= b.
+Proof.
+  intros b k H. apply char_of_byte_ret in H as [H1 <-]. unfold byte_of_char.
+  rewrite <- (firstn_length_le s H1) at 1. apply byte_len_ge_length.
+Qed.
+
+Lemma utf8_len_1_ascii c : utf8_len c = 1 -> is_ascii c = true.
+Proof.
+  unfold utf8_len, is_ascii. destruct (N.ltb c 128); [reflexivity|]. destruct (N.ltb c 2048); [discriminate|].
+  destruct (N.ltb c 65536); discriminate.
+Qed.
+
+(* the character offset of a byte offset equals the byte offset exactly when everything before it is ASCII *)
+Lemma char_eq_byte_iff_ascii : forall s b k, char_of_byte s b = Ret k -> (k = b <-> ascii_before_byte s b = true).
+Proof.
+  induction s as [|c s IH]; intros b k H.
+  - cbn [char_of_byte] in H. destruct (Nat.eqb_spec b 0); [|discriminate]. injection H as <-. subst. split; reflexivity.
+  - cbn [char_of_byte ascii_before_byte] in *. destruct (Nat.eqb_spec b 0) as [->|Hb].
+    + injection H as <-. split; reflexivity.
+    + destruct (Nat.leb_spec (utf8_len c) b) as [Hu|]; [|discriminate].
+      apply bind_ret in H as (k' & H1 & H2). injection H2 as <-.
+      pose proof (char_of_byte_le _ _ _ H1) as Lk. pose proof (utf8_len_bounds c) as Bc.
+      split.
+      * intro E. assert (utf8_len c = 1) as U by lia. rewrite (utf8_len_1_ascii _ U). cbn [andb].
+        rewrite U in H1. apply (IH _ _ H1). lia.
+      * intro A. apply andb_true_iff in A as [A1 A2]. rewrite (utf8_len_ascii _ A1) in H1.
+        apply (IH _ _ H1) in A2. lia.
+Qed.
+
+(* span level: a byte span read as a character span is the right character span iff the text before its end is ASCII *)
+Theorem byte_span_is_char_span_iff s bs be cs ce :
+  char_of_byte s bs = Ret cs -> char_of_byte s be = Ret ce -> bs <= be ->
+  ((bs = cs /\ be = ce) <-> ascii_before_byte s be = true).
+Proof.
+  intros Hs He Hle. split.
+  - intros [_ E]. apply (char_eq_byte_iff_ascii _ _ _ He). congruence.
+  - intro A. split.
+    + symmetry. apply (char_eq_byte_iff_ascii _ _ _ Hs). eapply ascii_before_byte_mono; eassumption.
+    + symmetry. apply (char_eq_byte_iff_ascii _ _ _ He). assumption.
+Qed.
+
+Lemma composed_one_in_bounds s sp :
+  sp_start sp <= sp_end sp -> sp_end sp <= length s ->
+  composed_one [(sp_src sp, s)] (Some sp) =
+  Ret (Some sp, Some (locate (lines s) (sp_start sp) 0, locate (lines s) (sp_end sp) 0)).
+Proof.
+  intros H1 H2. unfold composed_one. cbn [find fst]. rewrite Nat.eqb_refl.
+  rewrite location_is_position_lemma by lia. destruct (Nat.ltb_spec (sp_end sp) (sp_start sp)); [lia | reflexivity].
+Qed.
+
+(* distinct offsets of a source have distinct (line, column) positions *)
+Lemma locate_injective s a b : a <= length s -> b <= length s ->
+  locate (lines s) a 0 = locate (lines s) b 0 -> a = b.
+Proof.
+  intros Ha Hb E.
+  pose proof (get_offset_line_some s a Ha) as Ga. pose proof (get_offset_line_some s b Hb) as Gb.
+  destruct (locate (lines s) a 0) as [la ca]. destruct (locate (lines s) b 0) as [lb cb].
+  apply get_offset_line_spec in Ga as (_ & _ & Sa & _). apply get_offset_line_spec in Gb as (_ & _ & Sb & _).
+  injection E as -> ->. lia.
+Qed.
+
+(* location level, both directions, every source: what `composed` reports for a parser error (token byte span read as
+   character offsets) is the location of the characters at those byte offsets IFF the text before the end of the span
+   is ASCII.  Otherwise it is the assert panic or a different (line, column). *)
+Lemma byte_span_unit_iff s bs be :
+  boundary s bs -> boundary s be -> bs <= be ->
+  (bind (composed_one [(1, s)] (Some (Span bs be 1))) (fun r => Ret (snd r)) = byte_span_location s (Span bs be 1)
+   <-> ascii_before_byte s be = true).
+Proof.
+  intros Bs Be Hle.
+  assert (be <= byte_len s) as Hlen by (destruct Be as (k & _ & <-); apply byte_of_char_le).
+  apply char_of_byte_boundary in Bs as (cs & Hs). apply char_of_byte_boundary in Be as (ce & He).
+  pose proof (char_of_byte_ret _ _ _ Hs) as [Ls Es]. pose proof (char_of_byte_ret _ _ _ He) as [Le Ee].
+  pose proof (char_of_byte_le _ _ _ He) as Lce.
+  assert (cs <= ce) as Hc.
+  { destruct (Nat.le_gt_cases cs ce) as [|Hgt]; [assumption|].
+    pose proof (byte_of_char_strict s ce cs Hgt Ls). lia. }
+  unfold byte_span_location. cbn [sp_start sp_end sp_src]. rewrite Hs, He. cbn [bind].
+  pose proof (composed_one_in_bounds s (Span cs ce 1)) as C. cbn [sp_start sp_end sp_src] in C. Show. rewrite (C Hc Le).
+  cbn [bind snd]. split.
+  - intro E. destruct (ascii_before_byte s be) eqn:A; [reflexivity|exfalso].
+    assert (ce <> be) as Ne.
+    { intro X. apply (char_eq_byte_iff_ascii _ _ _ He) in X. congruence. }
+    destruct (Nat.le_gt_cases be (length s)) as [Hin|Hout].
+    + pose proof (composed_one_in_bounds s (Span bs be 1)) as D. cbn [sp_start sp_end sp_src] in D.
+      rewrite (D Hle Hin) in E. cbn [bind snd] in E. injection E as _ E2. apply locate_injective in E2; lia.
+    + assert (composed_one [(1, s)] (Some (Span bs be 1)) = Panic) as P.
+      { apply (composed_one_panics_iff s (Span bs be 1)). cbn [sp_start sp_end]. lia. }
+      rewrite P in E. discriminate.
+  - intro A. destruct (byte_span_is_char_span_iff s bs be cs ce Hs He Hle) as [_ X]. destruct (X A) as [-> ->].
+    rewrite (C Hc Le). reflexivity.
+Qed.
+
+Theorem parser_span_unit_iff s toks i j :
+  let sp := map_span toks i j 1 in
+  boundary s (sp_start sp) -> boundary s (sp_end sp) -> sp_start sp <= sp_end sp ->
+  (parser_error_location s toks i j = byte_span_location s sp <-> ascii_before_byte s (sp_end sp) = true).
+Proof.
+  intros sp Bs Be Hle. unfold parser_error_location. fold sp.
+  assert (sp = Span (sp_start sp) (sp_end sp) 1) as E by (destruct sp eqn:X; unfold sp in X; unfold map_span in X; injection X as <- <- <-; reflexivity).
+  rewrite E at 1 3. apply byte_span_unit_iff; assumption.
+Qed.
+
+(* conditional on the repair of F9 (byte -> character conversion before `composed`, what byte_span_location does):
+   a parser error over tokens i..j of ordered tokens that lie on character boundaries is reported without a panic, at
+   the position of the characters the tokens start and end at *)
+Theorem parser_error_located_if_converted s toks i j :
+  let sp := map_span toks i j 1 in
+  toks_okb 0 toks = true -> i < j -> j <= length toks ->
+  boundary s (sp_start sp) -> boundary s (sp_end sp) ->
+  exists cs ce,
+    byte_span_location s sp = Ret (Some (locate (lines s) cs 0, locate (lines s) ce 0)) /\
+    cs <= ce /\ ce <= length s /\ byte_of_char s cs = sp_start sp /\ byte_of_char s ce = sp_end sp.
+Proof.
+  intros sp Hok Hij Hj (cs & Hcs & Es) (ce & Hce & Ee).
+  pose proof (map_span_start_le_end toks i j 1 Hok Hij Hj) as Hle. fold sp in Hle.
+  assert (cs <= ce) as Hc.
+  { destruct (Nat.le_gt_cases cs ce) as [|Hgt]; [assumption|].
+    pose proof (byte_of_char_strict s ce cs Hgt Hcs). lia. }
+  exists cs, ce. split; [|repeat split; assumption].
+  unfold byte_span_location. rewrite <- Es, <- Ee, !char_of_byte_of_char by assumption. cbn [bind].
+  pose proof (composed_one_in_bounds s (Span cs ce (sp_src sp))) as C. cbn [sp_start sp_end sp_src] in C.
+  rewrite (C Hc Hce). reflexivity.
+Qed.
+
 (* ------------------------------------------------------------ interpolation rebasing *)
 Lemma byte_of_char_app_r pre t k : byte_of_char (pre ++ t) (length pre + k) = byte_len pre + byte_of_char t k.
 Proof.
